@@ -644,6 +644,48 @@ Proof.
   split; [vm_compute; lia|]. repeat split; vm_compute; reflexivity.
 Qed.
 
+(* any nonzero leading coefficient (e.g. a power of two): IF the integer long division goes through (every quotient term is
+   an exact integer division: polydiv over AZ answers Ok) the same size condition U (1+V)^(len u - len v + 1) < 2^53
+   suffices: the float division returns the float images of the integer quotient and remainder, the unique pair with
+   u = q0 v + r0 and r0 zero or shorter than v *)
+Theorem polydiv_exact_float_exactdiv : forall (u v : list PrimFloat.float) (uz vz q0 r0 : list Z) (U V : Z),
+  Forall2 ExactW u uz -> Forall2 ExactW v vz -> vz <> [] -> last vz 0%Z <> 0%Z ->
+  (0 <= U)%Z -> Forall (fun a : Z => (Z.abs a <= U)%Z) uz -> Forall (fun b : Z => (Z.abs b <= V)%Z) vz ->
+  (U * (1 + V) ^ Z.of_nat (length uz - length vz + 1) < 2 ^ 53)%Z ->
+  polydiv (A := AZ) uz vz = Ok (inl (q0, r0)) ->
+  exists q r, polydiv (A := AF) u v = Ok (inl (q, r)) /\ Forall2 ExactW q q0 /\ Forall2 ExactW r r0 /\
+    (forall k, nth k uz 0%Z = nth k (padd (A := AZ) (pmul (A := AZ) q0 vz) r0) 0%Z) /\
+    (is_zero (A := AZ) r0 = true \/ (length r0 < length vz)%nat) /\
+    (forall q1 r1 : list Z,
+       (forall k, nth k uz 0%Z = nth k (padd (A := AZ) (pmul (A := AZ) q1 vz) r1) 0%Z) ->
+       (is_zero (A := AZ) r1 = true \/ (length r1 < length vz)%nat) ->
+       (forall k, nth k q0 0%Z = nth k q1 0%Z) /\ (forall k, nth k r0 0%Z = nth k r1 0%Z)).
+Proof. exact polydiv_exact_float_exactdiv_lemma. Qed.
+Check polydiv_exact_float_exactdiv : forall (u v : list PrimFloat.float) (uz vz q0 r0 : list Z) (U V : Z),
+  Forall2 ExactW u uz -> Forall2 ExactW v vz -> vz <> [] -> last vz 0%Z <> 0%Z ->
+  (0 <= U)%Z -> Forall (fun a : Z => (Z.abs a <= U)%Z) uz -> Forall (fun b : Z => (Z.abs b <= V)%Z) vz ->
+  (U * (1 + V) ^ Z.of_nat (length uz - length vz + 1) < 2 ^ 53)%Z ->
+  polydiv (A := AZ) uz vz = Ok (inl (q0, r0)) ->
+  exists q r, polydiv (A := AF) u v = Ok (inl (q, r)) /\ Forall2 ExactW q q0 /\ Forall2 ExactW r r0 /\
+    (forall k, nth k uz 0%Z = nth k (padd (A := AZ) (pmul (A := AZ) q0 vz) r0) 0%Z) /\
+    (is_zero (A := AZ) r0 = true \/ (length r0 < length vz)%nat) /\
+    (forall q1 r1 : list Z,
+       (forall k, nth k uz 0%Z = nth k (padd (A := AZ) (pmul (A := AZ) q1 vz) r1) 0%Z) ->
+       (is_zero (A := AZ) r1 = true \/ (length r1 < length vz)%nat) ->
+       (forall k, nth k q0 0%Z = nth k q1 0%Z) /\ (forall k, nth k r0 0%Z = nth k r1 0%Z)).
+Print Assumptions polydiv_exact_float_exactdiv.
+(* u = 8 + 2x + 6x^2 + 4x^3 by v = 4 + 2x (U = 8, V = 4: 8 * 5^3 = 1000) *)
+Example polydiv_exact_float_exactdiv_nonvacuous :
+  Forall2 ExactW exU2 exU2z /\ Forall2 ExactW exV2 exV2z /\ exV2z <> [] /\ last exV2z 0%Z <> 0%Z /\
+  (0 <= 8)%Z /\ Forall (fun a : Z => (Z.abs a <= 8)%Z) exU2z /\ Forall (fun b : Z => (Z.abs b <= 4)%Z) exV2z /\
+  (8 * (1 + 4) ^ Z.of_nat (length exU2z - length exV2z + 1) < 2 ^ 53)%Z /\
+  polydiv (A := AZ) exU2z exV2z = Ok (inl ([3; -1; 2]%Z, [-4]%Z)).
+Proof.
+  split; [exact exU2_exact|]. split; [exact exV2_exact|]. split; [discriminate|]. split; [discriminate|].
+  split; [lia|]. split; [repeat constructor; cbn; lia|]. split; [repeat constructor; cbn; lia|].
+  split; vm_compute; reflexivity.
+Qed.
+
 (* the general form (any leading coefficient, e.g. a power of two): if the INTEGER long division goes through -- every
    division of a leading coefficient by that of v is exact (AZ's div) -- with answer (q0, r0), and every pass fits below
    2^53 (polydiv_fits: the quotient term, the updated quotient, the products and the updated remainder), then the float
